@@ -245,12 +245,16 @@ func (eq *externalBaseQueue) Purge() {
 	// adapter-backed queues hold serialized jobs: nothing to close on our side
 	if _, ok := eq.q.(IAcknowledgeable); ok {
 		eq.q.Purge()
+		eq.w.wakeWaiters()
 		return
 	}
 
 	// Take the jobs out one by one and close each of them. Snapshotting Values() and
 	// then purging dropped every job enqueued between the two calls without closing
 	// it: it never ran and its waiters were never released.
+	// an emptied queue may be what WaitUntilFinished callers are waiting for
+	defer eq.w.wakeWaiters()
+
 	for {
 		val, ok := eq.q.Dequeue()
 
